@@ -89,8 +89,8 @@ CHECKS['C01'] = dict(
          'over tracer lists (also lists of pairs with a tuple target) and range, break/continue/return, try/except(as)/finally with explicit raise, with, nested defs with '
          'closures/nonlocal, default values and decorators, calls of local and of module-level functions (recursive conversion or '
          'unconverted callee), lambdas (called in place / stored), comprehensions, and/or/not, conditional expressions, loop '
-         'directives, attribute state, list state (also under the LISTS feature), the integer profile on all inputs. Not '
-         'generated: globals, builtins, methods of user classes, partials, subscripts other than list[int], generators. '
+         'directives, attribute state, list state (also under the LISTS feature), module-level variables (global declarations; their '
+         'final values are observed), the integer profile on all inputs. Not generated: builtins, methods of user classes, partials, subscripts other than list[int], generators. '
          'Executions in which a callee-raised exception is caught by the caller, or a finally block raises while an exception '
          'propagates, are outside the class (flag oc) and skipped; when a finally block ran during propagation only "an '
          'exception escapes" and the effects up to the raise are compared (flag finx). Every converted run is under a 5 s alarm.',
